@@ -433,8 +433,11 @@ func runC19(t *testing.T, rng *rand.Rand, rec *sim.Rec, tier string, caseNo int)
 	listen := pick(rng, []string{"v4", "v4", "v6", "any4", "any6"})
 	strict := rng.Intn(3) == 0
 	cfg := sim.Config{
-		Realm: "verif.test", Users: map[string]string{"alice": "pw-a", "bob": "pw-b", "quota": "pw-q"}, Strict: strict,
+		Realm: "verif.test", Users: map[string]string{"alice": "pw-a", "bob": "pw-b", "quota": "pw-q", "solo": "pw-s"}, Strict: strict,
 		QuotaDenyUsers: []string{"quota"},
+		// "solo" may hold one allocation: once it has it the user is *at* quota, which must not change
+		// how a retransmission or a second Allocate on its own busy 5-tuple is answered
+		QuotaPerUser: map[string]int{"solo": 1},
 		TCPListeners:   []*net.TCPAddr{{IP: sim.ServerIP4, Port: 3478}},
 	}
 	var lip net.IP
@@ -467,7 +470,14 @@ func runC19(t *testing.T, rng *rand.Rand, rec *sim.Rec, tier string, caseNo int)
 			ip = ip.To16() // IPv4-mapped IPv6 representation of the source
 		}
 		user := pick(rng, []string{"alice", "bob"})
-		c, err := w.NewUDPClient(fmt.Sprintf("c%d", i), ip, 5000+i, 0, user)
+		if i == 0 && rng.Intn(3) == 0 {
+			user = "solo" // (only this client uses it)
+		}
+		port := 5000 + i
+		if i == 1 && caseNo%2 == 0 && !ip.Equal(clients[0].Addr.(*net.UDPAddr).IP) {
+			port = 5000 // same source port as c0 on another host: the 5-tuples differ in the IP only
+		}
+		c, err := w.NewUDPClient(fmt.Sprintf("c%d", i), ip, port, 0, user)
 		if err != nil {
 			t.Fatal(err)
 		}
